@@ -733,6 +733,31 @@ class SymSet:
         tx = self._term(x)
         return bool(SBool(z3.Or(*[tx == self._term(i) for i in items])))
 
+    def discard(self, x):
+        """remove every item equal to x (equality of symbolic strings forks the path)"""
+        if x is None:
+            self.items = [i for i in self.items if i is not None]
+            return
+        tx = self._term(x)
+        keep = []
+        for i in self.items:
+            if i is None or not bool(SBool(tx == self._term(i))):
+                keep.append(i)
+        self.items = keep
+
+    def remove(self, x):
+        n = len(self.items)
+        self.discard(x)
+        if len(self.items) == n:
+            raise KeyError(x)
+
+    def clear(self):
+        self.items = []
+
+    def update(self, xs):
+        for x in xs:
+            self.add(x)
+
     def __len__(self):
         raise Unsupported("len of SymSet")
 
